@@ -10,7 +10,8 @@
     names.  [font_equiv] is the equality of the property: everything but the creator, numbers /
     colours under the part equalities, feature text up to line endings, stores byte-identical. *)
 Require Import Norad.Model.GlifSpec Norad.Model.GlifEncode Norad.Proofs.GlifEncodeP Norad.Proofs.GlifRoundtripP.
-Require Import Norad.Model.Base Norad.Model.FontRT Norad.Model.FontToy Norad.Model.FontNum Norad.Model.FontReal
+Require Import Norad.Model.Base Norad.Model.FontRT Norad.Model.FontToy Norad.Model.FontNum Norad.Model.FontRealInfo Norad.Model.FontReal
+               Norad.Proofs.FontRealInfoP
                Norad.Proofs.FontRTP Norad.Proofs.FontToyP Norad.Proofs.FontNumP Norad.Proofs.FontRealP.
 Open Scope N_scope.
 
@@ -110,41 +111,55 @@ Proof. eexists. split; vm_compute; reflexivity. Qed.
 
 (** ---------- with the REAL part models plugged in (Model/FontReal.v) ----------
 
-    [real_sig pf ff ff3 fi fh B]: the glif codec is the real one — [encode_glif] / [parse_glif] of
-    Model/GlifEncode.v / GlifParse.v on the glyph type of Model/Glif.v, names assigned as
-    Layer::load_impl does; every other part is that of an arbitrary base signature [B].
+    [real_sig pf ff ff3 fi fh B PG PK] is the font-level signature with
+    - the REAL glif codec: [encode_glif] / [parse_glif] (Model/GlifEncode.v, GlifParse.v) on the
+      glyph type of Model/Glif.v, names assigned as Layer::load_impl does;
+    - the REAL font info: the validated FontInfo view of C13 (Model/FontInfo.v) split into
+      "rest" and guidelines, written by [fi_save] + [encode], read by [fi_load], validated by
+      [fi_validate];
+    - the REAL groups and kerning maps of Model/Groups.v with the real validator
+      [validate_groups], the real emptiness tests / defaults and the real kerning upconversion;
+    - metainfo, lib, layercontents, contents, layerinfo and the dictionary algebra taken from an
+      arbitrary base signature [B]; the groups.plist / kerning.plist file codecs [PG] / [PK].
+    The laws of [sig_ok] about the glif codec and glyph names (from C02_roundtrip_partial,
+    C02_options_irrelevant), about the font-info codec, its default and validator (from
+    C13_entry_points_agree) and about the groups validator / defaults are PROVED
+    (Proofs/FontRealP.v, [real_sig_ok]).
 
-    Hypotheses that remain, and what discharges them:
-    - [base_laws B] = the laws of [sig_ok] for metainfo, font info, lib, groups, kerning,
-      layercontents, contents, layerinfo, the dictionary algebra, defaults and validators (NOT the
-      glif laws: those are proved).  Font info: C13_entry_points_agree (Model/FontInfo.v), groups
-      validity: C15_validate_iff / C15_save_iff (Model/Groups.v), numbers of kerning / info:
-      Model/Num.v; the plist parts and the dictionary algebra: the L1 plist hypothesis
-      (plist_read (plist_write v) = Some v) over Model/Plist.v — next steps of the instantiation.
+    Hypotheses that remain, and what would discharge them:
+    - [base_laws B PG PK]: part_ok of metainfo, lib, layercontents, contents, layerinfo, [PG], [PK],
+      their exactness / shape laws and the dictionary algebra (get/set/del, deq, mk_dict/as_dict).
+      All of these are facts about the plist layer: the L1 hypothesis
+      plist_read (plist_write v) = Some v over Model/Plist.v plus the serde shape of each file
+      (Schema-style decode_encode); kerning numbers additionally need Model/Num.v
+      (the integer-or-float writer is exact since cf70ca2).  Satisfiable: [C01_real_base_laws_satisfiable].
     - [L1_glif]: f64 Display / from_str invert on finite numbers, the {:.3} rendering of a colour
       channel holds no comma and reads back inside 0..1, {:04X} reads back (the L1 hypotheses of
       C02_roundtrip_partial; validated on every value by the C02 run).
-    - in [font_valid]: every glyph satisfies [wf_glyph]: the glyph rules of C12, finite numbers, a
-      surviving note, canonical numbers / colours, and NO LIBS (glyph lib, object libs) — the
-      composite glif round trip of C02 is proved for lib-free glyphs only (C02_roundtrip_partial);
-      glyphs with libs stay covered by the parametric theorem and the run.
-    On that domain the glyphs come back exactly ([C01_roundtrip_real_glyphs_exact]). *)
-Theorem C01_roundtrip_real : forall pf ff ff3 fi fh (B : sig),
-  L1_glif pf ff ff3 fh -> base_laws B ->
-  forall o (f : font (real_sig pf ff ff3 fi fh B)),
-  font_valid (real_sig pf ff ff3 fi fh B) f ->
-  exists t, save (real_sig pf ff ff3 fi fh B) o f = Ok t /\
-            spec_write (real_sig pf ff ff3 fi fh B) norad_choices o f = Some t /\
-            exists f', load (real_sig pf ff ff3 fi fh B) t = Ok f' /\ font_equiv (real_sig pf ff ff3 fi fh B) f f'.
+    - in [font_valid]: every glyph satisfies [wf_glyph] — the glyph rules of C12, finite numbers, a
+      surviving note, canonical numbers / colours, and NO LIBS (the composite glif round trip of
+      C02 is proved for lib-free glyphs only; glyphs with libs stay covered by the parametric
+      theorem and the run) — and the font info satisfies [wf_sinfo] (FontInfo::validate accepts,
+      integer fields within their machine types).
+    On that domain glyphs, font info and groups come back exactly. *)
+Theorem C01_roundtrip_real : forall pf ff ff3 fi fh (B : sig) PG PK,
+  L1_glif pf ff ff3 fh -> base_laws B PG PK ->
+  forall o (f : font (real_sig pf ff ff3 fi fh B PG PK)),
+  font_valid (real_sig pf ff ff3 fi fh B PG PK) f ->
+  exists t, save (real_sig pf ff ff3 fi fh B PG PK) o f = Ok t /\
+            spec_write (real_sig pf ff ff3 fi fh B PG PK) norad_choices o f = Some t /\
+            exists f', load (real_sig pf ff ff3 fi fh B PG PK) t = Ok f' /\ font_equiv (real_sig pf ff ff3 fi fh B PG PK) f f'.
 Proof. exact roundtrip_real. Qed.
-Theorem C01_roundtrip_real_glyphs_exact : forall pf ff ff3 fi fh (B : sig)
-  (f f' : font (real_sig pf ff ff3 fi fh B)),
-  font_equiv (real_sig pf ff ff3 fi fh B) f f' ->
+Theorem C01_roundtrip_real_glyphs_exact : forall pf ff ff3 fi fh (B : sig) PG PK
+  (f f' : font (real_sig pf ff ff3 fi fh B PG PK)),
+  font_equiv (real_sig pf ff ff3 fi fh B PG PK) f f' ->
   map l_glyphs (f_layers _ f) = map l_glyphs (f_layers _ f').
 Proof. exact roundtrip_real_glyphs_exact. Qed.
 (** the remaining law hypothesis is satisfiable (every lawful signature provides it), and the glyph
     domain holds a glyph with code points, a note, an anchor, a component and a contour *)
-Example C01_real_base_laws_satisfiable : base_laws toy_sig.
-Proof. exact (base_laws_of_sig_ok toy_sig toy_ok). Qed.
+Example C01_real_base_laws_satisfiable : base_laws toy_sig toy_PG toy_PK.
+Proof. exact toy_base_laws. Qed.
 Example C01_real_glyph_domain_inhabited : forall pf ff3, wf_glyph pf ff3 g_real_sample.
 Proof. exact real_sample_wf. Qed.
+Example C01_real_info_domain_inhabited : wf_sinfo si_real_sample.
+Proof. exact si_real_sample_wf. Qed.
